@@ -204,7 +204,7 @@ func init() {
 
 var c01Tokens = []string{"(", ")", "[", "]", "{", "}", "%", "^", "~", "~@", ":", ":=", "=", ";", ",", ".", "a", "a:", "a.b", ".a", "1", "-1", "1.5", `"s"`, "#c", "`", "+", "-", "*", "<", "and", "cond", "let", "def", "fn", "for", "'", "#", "$", "&", "|", "\\", "@", "?", "//", "/*", "*/", "\"", "==", "!", "->", "..", "0x", "1e", "nil", "quote", "defmac", "break", "package", "set", "++", "[]", "a[", "b]"}
 
-var c01Heads = []string{"and", "or", "cond", "let", "letseq", "def", "set", "fn", "defn", "defmac", "for", "range", "break", "continue", "quote", "begin", "newScope", "mdef", "assert", "include", "macexpand", "eval", "return", "struct", "field", "func", "method", "interface", "package", "import", "var", "expectError", "comment", "%", "^", "~", "~@", ":", "=", ":=", "+", "-", "*", "/", "<", "==", "!=", "not", "aget", "aset", "hget", "hset", "hdel", "first", "rest", "cons", "append", "concat", "len", "str", "json", "unjson", "msgpack", "unmsgpack", "togo", "apply", "map", "sprintf", "symnum", "str2sym", "sym2str", "gensym", "read", "slice", "flatten", "arrayidx", "hashidx", "hpair", "keys", "infixExpand", "infix", "defined?", "type?", "list", "array", "hash", "raw", "makeArray", "string", "int", "float", "char", "_method", "deref", "&", "derefSet", "dot", ".", "chomp", "trim", "split", "nsplit", "exp", "sll", "sra", "bitNot", "bitAnd", "mod", "**", "++", "--", "+=", "pretty", "callcc", "generator", "sort", "reverse", "label:"}
+var c01Heads = []string{"f", "tf", "m", "mm", "mth", "a", "b", "S", "and", "or", "cond", "let", "letseq", "def", "set", "fn", "defn", "defmac", "for", "range", "break", "continue", "quote", "begin", "newScope", "mdef", "assert", "include", "macexpand", "eval", "return", "struct", "field", "func", "method", "interface", "package", "import", "var", "expectError", "comment", "%", "^", "~", "~@", ":", "=", ":=", "+", "-", "*", "/", "<", "==", "!=", "not", "aget", "aset", "hget", "hset", "hdel", "first", "rest", "cons", "append", "concat", "len", "str", "json", "unjson", "msgpack", "unmsgpack", "togo", "apply", "map", "sprintf", "symnum", "str2sym", "sym2str", "gensym", "read", "slice", "flatten", "arrayidx", "hashidx", "hpair", "keys", "infixExpand", "infix", "defined?", "type?", "list", "array", "hash", "raw", "makeArray", "string", "int", "float", "char", "_method", "deref", "&", "derefSet", "dot", ".", "chomp", "trim", "split", "nsplit", "exp", "sll", "sra", "bitNot", "bitAnd", "mod", "**", "++", "--", "+=", "pretty", "callcc", "generator", "sort", "reverse", "label:"}
 
 var c01Atoms = []string{"1", "-1", "0", "9223372036854775807", "-9223372036854775808", "1.5", "1e308", "-0.0", `"s"`, `""`, "#c", "nil", "true", "a", "b", "a:", ".a", "a.b", "a.b.c", "$a", "#a", "[]", "[1 2]", "()", "(quote x)", "{}", "{a = 1}", "(hash a: 1)", "(hash)", "(list 1 2)", "(fn [x] x)", "(fn [] (break))", "(raw \"ab\")", "[a b]", "[1 [2 [3]]]", "(list)", "%x", "^(a ~b)", "~x", "~@x", "lp:", "& rest", "[& r]", "[a & ]", "[#x]", "(def a 1)", "(and)", "(let)", "(cond)", "(for)", "(fn)", "x y", "\"\\x00\"", "(str2sym \"\")", "(str2sym \"a b\")", "(gensym)"}
 
@@ -240,6 +240,8 @@ func genHostileProgram(t *rapid.T) string {
 			"(struct S [(field Id: int64)]) (def a (S Id: 1)) (def b (& a))",
 			"(def a (package \"p\" (def Pub 1) (def priv 2))) (def b a)",
 			"(defn f [#x] #x) (def a (f (+ 1 2))) (def b [a a])",
+			"(func tf [a:int64 b:string] [n:int64 err:error] (return a nil)) (def a 1) (def b \"s\") (defn f [x & r] x)",
+			"(struct S [(field Id: int64)]) (method [p: (* S)] mth [a:int64] [n:int64] (return a)) (interface I [(func mth [a:int64] [n:int64])]) (def a (S)) (def b 2)",
 		}).Draw(t, "pre"))
 	}
 	for i := 0; i < rapid.IntRange(1, 3).Draw(t, "nforms"); i++ {
@@ -421,7 +423,7 @@ func TestC01(t *testing.T) {
 			p.reportEnum("text", crashCase{Text: k.Text}, &ev.Failure{Sig: "host-process-died:" + site, Msg: fmt.Sprintf("evaluating %q kills the host process (fatal runtime error, not recoverable)", clip(k.Text, 300)), Expected: "a value or an error", Observed: k.Output})
 		}
 	}
-	r.SetRule(fmt.Sprintf("tokens: every string of <=L tokens over a %d-token alphabet (brackets, sigils, quote characters, numbers, strings, symbols, dotted and colon forms, special-form names, comment and string openers), joined with single spaces and again glued without spaces - exhaustive for L=2 (quick) / L=3 (thorough), rapid-sampled for lengths up to 7. hostile: grammar-generated forms whose head is any of %d special forms, builders and builtins with 0-4 arguments of the wrong shape (atoms of every kind, empty and malformed special forms, cyclic data, lazy arguments, packages, struct instances), nested to depth 3, in (), [] and {} brackets, optionally after a prelude defining such values. mutant: tests/*.zy scripts cut to a window and mutated 1-4 times (delete, duplicate, insert hostile token, change a bracket, truncate, splice from another script, replace an atom, flip a byte). Every text goes through 9 entry points in fresh interpreters: EvalString, LoadString+Run, ParseTokens (+ printing the forms), ParseTokens+EvalExpressions, (macexpand text), (eval (quote text)), (eval (read \"text\")), the REPL's infix line wrap {text}, and a second evaluation on the same interpreter after Clear(). Oracle: every call returns (value or error; the result is printed); a panic reaching the harness or a call that does not return under the %d-step VM budget is a violation. Non-trivial: >=2 tokens and not a verbatim corpus text. Distinct by text.", len(c01Tokens), len(c01Heads), c01Budget))
+	r.SetRule(fmt.Sprintf("tokens: every string of <=L tokens over a %d-token alphabet (brackets, sigils, quote characters, numbers, strings, symbols, dotted and colon forms, special-form names, comment and string openers), joined with single spaces and again glued without spaces - exhaustive for L=2 (quick) / L=3 (thorough), rapid-sampled for lengths up to 7. hostile: grammar-generated forms whose head is any of %d special forms, builders and builtins with 0-4 arguments of the wrong shape (atoms of every kind, empty and malformed special forms, cyclic data, lazy arguments, packages, struct instances, typed func / method declarations and calls of them), nested to depth 3, in (), [] and {} brackets, optionally after a prelude defining such values. mutant: tests/*.zy scripts cut to a window and mutated 1-4 times (delete, duplicate, insert hostile token, change a bracket, truncate, splice from another script, replace an atom, flip a byte). Every text goes through 9 entry points in fresh interpreters: EvalString, LoadString+Run, ParseTokens (+ printing the forms), ParseTokens+EvalExpressions, (macexpand text), (eval (quote text)), (eval (read \"text\")), the REPL's infix line wrap {text}, and a second evaluation on the same interpreter after Clear(). Oracle: every call returns (value or error; the result is printed); a panic reaching the harness or a call that does not return under the %d-step VM budget is a violation. Non-trivial: >=2 tokens and not a verbatim corpus text. Distinct by text.", len(c01Tokens), len(c01Heads), c01Budget))
 	r.Assume("texts containing /dev/ or /proc/ are skipped (an include of /dev/zero is a hang that says nothing about the interpreter)", "makeArray refuses sizes > 65536 in the harness (allocation bombs); shell, channel and file-writing builtins are error stubs", "budget exhaustion is discarded, never a verdict; a call is only reported as not returning after 30 s and, re-run, 120 s")
 
 	// (1) exhaustive token strings
